@@ -17,6 +17,7 @@ import (
 	"net"
 	"os"
 	"path/filepath"
+	"strconv"
 	"strings"
 	"sync"
 	"sync/atomic"
@@ -30,8 +31,19 @@ one certificate (IP SANs) whose CA is trusted through SSL_CERT_FILE, so the unmo
 */
 
 type route struct {
-	resp  string // raw response bytes
-	fault string // "", "cut:<k>:eof", "cut:<k>:reset", "cut:<k>:stall", "stall", "trickle:<ms>", "slowtail:<k>:<ms>", "nohandshake"
+	resp string // raw response bytes ("{PAD:<n>:<c>}" stands for n times the character c, expanded when served)
+	/* "", "cut:<k>:eof", "cut:<k>:reset", "cut:<k>:stall" (k < 0 counts from the end), "stall",
+	   "trickle:<ms>", "slowtail:<k>:<ms>" (milliseconds per second of configured timeout),
+	   "slowok:<k>:<percent>" (the tail spread over that share of the timeout), "flood:<MB>";
+	   host faults: "nohandshake", "halfhandshake", "tlsgarbage", "closeaccept", "resetaccept" */
+	fault string
+}
+
+/* a listener as the outside sees it: the name and port a URL has to carry to reach it */
+type simListener struct {
+	name      string // lower-case host name or IP literal (no brackets)
+	port      string
+	authority string // the key of its routes and of the request log
 }
 
 type simulator struct {
@@ -42,6 +54,59 @@ type simulator struct {
 	canary    string
 	canaryLog []string
 	resumed   int // TLS handshakes that resumed an earlier session (the client offered a ticket)
+	listeners []simListener
+}
+
+/*
+set by the ops whose subject is the request itself: after the request head the simulator keeps
+
+	reading for a moment, so that anything sent after the blank line is part of the record
+*/
+var simReadOn int32
+
+const simReadOnWindow = 12 * time.Millisecond
+
+/* indices into simulator.hosts after the simHosts plain ones */
+const (
+	hostLocalhost = simHosts     // "localhost:<port>" (listening on 127.0.0.1 and ::1)
+	hostIPv6      = simHosts + 1 // "[::1]:<port>"
+	hostDefault   = simHosts + 2 // "127.a.b.7": no port in the URL, the listener is on 443
+	hostPortOnly  = simHosts + 3 // the address of host 0 under another port
+)
+
+/* the loopback address of this process's default-port listener */
+func defaultPortIP() string {
+	pid := os.Getpid()
+	return fmt.Sprintf("127.%d.%d.7", 1+pid%200, (pid/200)%250)
+}
+
+/*
+which listener a URL reaches: IP literals by value, names without regard to letter case (a
+
+	trailing dot goes to the resolver, which knows no such name here), the https default port
+	when none is written; "" when nothing of ours is there
+*/
+func (s *simulator) reach(hostname, port string) string {
+	if port == "" {
+		port = "443"
+	}
+	pn, err := strconv.Atoi(port)
+	if err != nil {
+		return ""
+	}
+	ip := net.ParseIP(hostname)
+	name := strings.ToLower(hostname)
+	for _, l := range s.listeners {
+		lp, _ := strconv.Atoi(l.port)
+		if lp != pn {
+			continue
+		}
+		lip := net.ParseIP(l.name)
+		if (ip != nil && lip != nil && ip.Equal(lip)) || (ip == nil && lip == nil && l.name == name) {
+			return l.authority
+		}
+	}
+	return ""
 }
 
 type simRequest struct {
@@ -73,6 +138,7 @@ func startSimulator() *simulator {
 	for i := 1; i <= simHosts+1; i++ {
 		ips = append(ips, net.ParseIP(fmt.Sprintf("127.0.0.%d", i)))
 	}
+	ips = append(ips, net.ParseIP("::1"), net.ParseIP(defaultPortIP()))
 	leafTmpl := &x509.Certificate{SerialNumber: big.NewInt(2), Subject: pkix.Name{CommonName: "verif leaf"},
 		NotBefore: time.Now().Add(-time.Hour), NotAfter: time.Now().Add(48 * time.Hour),
 		KeyUsage: x509.KeyUsageDigitalSignature, ExtKeyUsage: []x509.ExtKeyUsage{x509.ExtKeyUsageServerAuth},
@@ -94,6 +160,62 @@ func startSimulator() *simulator {
 		}
 		authority := ln.Addr().String()
 		s.hosts = append(s.hosts, authority)
+		_, port, _ := net.SplitHostPort(authority)
+		s.listeners = append(s.listeners, simListener{fmt.Sprintf("127.0.0.%d", i+2), port, authority})
+		go s.serve(ln, cfg, authority)
+	}
+	/* a host reached by name: the same port on both loopback families, whichever the resolver prefers */
+	has6 := false
+	if probe, err := net.Listen("tcp", "[::1]:0"); err == nil {
+		has6 = true
+		probe.Close()
+	}
+	s.hosts = append(s.hosts, "localhost:1")
+	for try := 0; try < 20; try++ {
+		l4, err := net.Listen("tcp", "127.0.0.1:0")
+		if err != nil {
+			break
+		}
+		_, port, _ := net.SplitHostPort(l4.Addr().String())
+		var l6 net.Listener
+		if has6 {
+			if l6, err = net.Listen("tcp", "[::1]:"+port); err != nil {
+				l4.Close()
+				continue
+			}
+		}
+		authority := "localhost:" + port
+		s.hosts[hostLocalhost] = authority
+		s.listeners = append(s.listeners, simListener{"localhost", port, authority})
+		go s.serve(l4, cfg, authority)
+		if l6 != nil {
+			go s.serve(l6, cfg, authority)
+		}
+		break
+	}
+	/* an IPv6 literal */
+	s.hosts = append(s.hosts, "[::1]:1")
+	if l6, err := net.Listen("tcp", "[::1]:0"); err == nil {
+		authority := l6.Addr().String()
+		_, port, _ := net.SplitHostPort(authority)
+		s.hosts[hostIPv6] = authority
+		s.listeners = append(s.listeners, simListener{"::1", port, authority})
+		go s.serve(l6, cfg, authority)
+	}
+	/* a host on the https default port, named without a port (needs the right to bind 443) */
+	s.hosts = append(s.hosts, defaultPortIP())
+	if ld, err := net.Listen("tcp", defaultPortIP()+":443"); err == nil {
+		s.listeners = append(s.listeners, simListener{defaultPortIP(), "443", defaultPortIP()})
+		go s.serve(ld, cfg, defaultPortIP())
+	}
+	/* one more authority on the address of host 0, under another port: it and {H0} differ by
+	   port only (generators that draw hosts from 0..simHosts-1 never see it) */
+	s.hosts = append(s.hosts, "127.0.0.2:1")
+	if ln, err := net.Listen("tcp", "127.0.0.2:0"); err == nil {
+		authority := ln.Addr().String()
+		_, port, _ := net.SplitHostPort(authority)
+		s.hosts[hostPortOnly] = authority
+		s.listeners = append(s.listeners, simListener{"127.0.0.2", port, authority})
 		go s.serve(ln, cfg, authority)
 	}
 	cl, err := net.Listen("tcp", "127.0.0.1:0")
@@ -129,14 +251,60 @@ func (s *simulator) serve(ln net.Listener, cfg *tls.Config, authority string) {
 	}
 }
 
+/* "{PAD:<n>:<c>}" -> n times c */
+func expandPads(resp string) string {
+	for {
+		i := strings.Index(resp, "{PAD:")
+		if i < 0 {
+			return resp
+		}
+		e := strings.Index(resp[i:], "}")
+		if e < 0 {
+			return resp
+		}
+		var n int
+		var c string
+		parts := strings.SplitN(resp[i+5:i+e], ":", 2)
+		fmt.Sscanf(parts[0], "%d", &n)
+		if len(parts) == 2 {
+			c = parts[1]
+		}
+		resp = resp[:i] + strings.Repeat(c, n) + resp[i+e+1:]
+	}
+}
+
+/* the configured timeout in seconds (at least 1), the unit of the slow faults */
+var simTimeoutSeconds = func() int { return 1 }
+
 func (s *simulator) handle(raw net.Conn, cfg *tls.Config, authority string) {
 	defer raw.Close()
 	s.mu.Lock()
 	hostFault := s.routes["@"+authority].fault
 	s.mu.Unlock()
-	if hostFault == "nohandshake" {
+	switch hostFault {
+	case "nohandshake":
 		/* accept the TCP connection and never speak TLS */
 		time.Sleep(simStallTime())
+		return
+	case "halfhandshake":
+		/* read the ClientHello, answer with the first bytes of a handshake record, go silent */
+		buf := make([]byte, 4096)
+		raw.SetReadDeadline(time.Now().Add(2 * time.Second))
+		raw.Read(buf)
+		raw.Write([]byte{0x16, 0x03, 0x03, 0x00, 0x7a, 0x02, 0x00, 0x00, 0x76, 0x03, 0x03, 1, 2, 3, 4, 5, 6, 7})
+		time.Sleep(simStallTime())
+		return
+	case "tlsgarbage":
+		/* a plaintext answer where the ServerHello belongs */
+		raw.Write([]byte("HTTP/1.0 200 OK\r\nContent-Type: application/activity+json\r\n\r\n{\"stamp\":\"plain\"}"))
+		time.Sleep(50 * time.Millisecond)
+		return
+	case "closeaccept":
+		return
+	case "resetaccept":
+		if tcp, ok := raw.(*net.TCPConn); ok {
+			tcp.SetLinger(0)
+		}
 		return
 	}
 	conn := tls.Server(raw, cfg)
@@ -157,6 +325,27 @@ func (s *simulator) handle(raw net.Conn, cfg *tls.Config, authority string) {
 		if err != nil || line == "\r\n" || line == "\n" {
 			break
 		}
+	}
+	/* whatever came with the head but after its blank line belongs to the record; with
+	   simReadOn, also what arrives shortly afterwards */
+	if n := rd.Buffered(); n > 0 {
+		more, _ := rd.Peek(n)
+		req.Write(more)
+		rd.Discard(n)
+	}
+	if atomic.LoadInt32(&simReadOn) != 0 {
+		conn.SetReadDeadline(time.Now().Add(simReadOnWindow))
+		buf := make([]byte, 1<<16)
+		extra := 0
+		for extra < 1<<20 {
+			n, err := rd.Read(buf)
+			req.Write(buf[:n])
+			extra += n
+			if err != nil {
+				break
+			}
+		}
+		conn.SetDeadline(time.Now().Add(30 * time.Second))
 	}
 	text := req.String()
 	target := ""
@@ -181,7 +370,8 @@ func (s *simulator) handle(raw net.Conn, cfg *tls.Config, authority string) {
 	if max := atomic.LoadInt64(&simLatencyMicros); max > 0 {
 		time.Sleep(time.Duration(rand.Int63n(max)) * time.Microsecond)
 	}
-	body := []byte(rt.resp)
+	body := []byte(expandPads(rt.resp))
+	unit := simTimeoutSeconds()
 	switch {
 	case rt.fault == "":
 		conn.Write(body)
@@ -195,12 +385,12 @@ func (s *simulator) handle(raw net.Conn, cfg *tls.Config, authority string) {
 			if _, err := conn.Write(body[i : i+1]); err != nil {
 				return
 			}
-			time.Sleep(time.Duration(ms) * time.Millisecond)
+			time.Sleep(time.Duration(ms*unit) * time.Millisecond)
 		}
 		conn.Close()
 	case strings.HasPrefix(rt.fault, "slowtail:"):
-		/* the first k bytes at once, the rest one byte every ms milliseconds: every gap is
-		   shorter than the timeout, the whole response takes several timeouts */
+		/* the first k bytes at once, the rest one byte every ms milliseconds (per second of
+		   timeout): every gap is shorter than the timeout, the whole response takes several */
 		var k, ms int
 		fmt.Sscanf(rt.fault, "slowtail:%d:%d", &k, &ms)
 		if k > len(body) {
@@ -210,18 +400,57 @@ func (s *simulator) handle(raw net.Conn, cfg *tls.Config, authority string) {
 			return
 		}
 		for i := k; i < len(body); i++ {
-			time.Sleep(time.Duration(ms) * time.Millisecond)
+			time.Sleep(time.Duration(ms*unit) * time.Millisecond)
 			if _, err := conn.Write(body[i : i+1]); err != nil {
 				return
 			}
 		}
 		conn.Close()
+	case strings.HasPrefix(rt.fault, "slowok:"):
+		/* the first k bytes at once, the rest in eight pieces spread over the given share of the
+		   timeout: slow, but complete well before the deadline */
+		var k, percent int
+		fmt.Sscanf(rt.fault, "slowok:%d:%d", &k, &percent)
+		if k > len(body) {
+			k = len(body)
+		}
+		if _, err := conn.Write(body[:k]); err != nil {
+			return
+		}
+		rest := body[k:]
+		pieces := 8
+		gap := time.Duration(unit*percent*10/pieces) * time.Millisecond
+		for i := 0; i < pieces; i++ {
+			time.Sleep(gap)
+			lo, hi := len(rest)*i/pieces, len(rest)*(i+1)/pieces
+			if _, err := conn.Write(rest[lo:hi]); err != nil {
+				return
+			}
+		}
+		conn.Close()
+	case strings.HasPrefix(rt.fault, "flood:"):
+		/* megabytes of one endless line, then silence */
+		var mb int
+		fmt.Sscanf(rt.fault, "flood:%d", &mb)
+		chunk := []byte(strings.Repeat("A", 1<<16))
+		for i := 0; i < mb*16; i++ {
+			if _, err := conn.Write(chunk); err != nil {
+				return
+			}
+		}
+		time.Sleep(simStallTime())
 	case strings.HasPrefix(rt.fault, "cut:"):
 		var k int
 		var how string
 		parts := strings.Split(rt.fault, ":")
 		fmt.Sscanf(parts[1], "%d", &k)
 		how = parts[2]
+		if k < 0 {
+			k += len(body)
+			if k < 0 {
+				k = 0
+			}
+		}
 		if k > len(body) {
 			k = len(body)
 		}
